@@ -38,7 +38,8 @@ def gen(rng, tier):
         for t in spec["model"]["tasks"]:
             if rng.random() < 0.7:
                 t["due"] = rng.randint(0, 12)
-        spec["prelude"] = {"due": rng.random() < 0.8, "reverse": rng.random() < 0.5}
+        spec["prelude"] = {"due": rng.random() < 0.8, "reverse": rng.random() < 0.5,
+                           "limit": rng.choice([None, None, 1, 3, 6]), "dt": rng.randint(0, 5)}
     return spec
 
 
@@ -110,7 +111,22 @@ def run(spec):
         tr.built = B.build(spec["model"], spec.get("ranks"))
         tr.project = tr.built.project
         tr.absence = set(spec["cfg"].get("absence", []))
-        scen.simulate(tr.project, spec["cfg"], want_snap=False, backward=spec["prelude"])
+        pcfg = dict(spec["cfg"])
+        if spec["prelude"].get("limit") is not None:
+            pcfg["max_time"] = spec["prelude"]["limit"]
+        rb, ob = scen.simulate(tr.project, pcfg, want_snap=False, backward=spec["prelude"])
+        if ob.ok and not any(k != G.FS for (_, _, k) in tr.model["deps"]):
+            # the network is forward again: a direct PERT update (no initialize in between) must match the reference
+            st0 = Static(tr.model)
+            tt = tr.project.time + spec["prelude"].get("dt", 0)
+            r0 = D.Recorder(tr.project, want_snap=False)
+            r0.own_call = True
+            o0 = D.call(lambda: tr.project.workflow.update_PERT_data(tt), r0)
+            if o0.ok:
+                sn0 = D.snapshot(D.index(tr.project))
+                pre = C.campaign.Result()
+                compare(pre, st0, sn0["T"], sn0["cpl"], tt, "update_PERT_data(%d) directly after backward_simulate" % tt)
+                spec["_pre_violations"] = [(v["clause"], v["key"] + ".after_backward", v["msg"], v["step"]) for v in pre.violations]
         tr.rec, tr.out = scen.simulate(tr.project, spec["cfg"], snap_phases=("updated", "recorded"))
         tr.ix = tr.rec.ix
         tr.history = None
@@ -118,6 +134,8 @@ def run(spec):
     res = C.base_result(tr)
     if spec.get("prelude") is not None:
         res.count("backward_prelude")
+        for (cl, key, msg, step) in spec.pop("_pre_violations", []):
+            res.add(cl, key, msg, step)
     st = Static(tr.model)
     if any(k != G.FS for (_, _, k) in tr.model["deps"]):
         return C.finish(res, tr)
